@@ -610,6 +610,11 @@ def encode (parts : List Part) (error : Option Nat) (version : Option Int) (mode
     | none => pure guessed
     | some v => if guessed > v then throw PyErr.dataOverflow else pure v
   let error' := if error.isNone && v != Gen.VERSION_M1 then some Gen.ERROR_LEVEL_L else error
+  -- a requested version above the minimal one is checked against its own capacity
+  if v != guessed then
+    match capacity v error', bitLengthWithOverhead segs v eci false with
+    | some cap, some bl => if cap ≥ bl then pure () else throw PyErr.dataOverflow
+    | _, _ => throw PyErr.dataOverflow
   -- normalize_mask range check
   match mask with
   | some mk => if (v < 1 && mk ≥ 4) || mk ≥ 8 then throw PyErr.valueError
